@@ -43,6 +43,7 @@ def stmt_for(kind, name):
         'nonlocalread': ['nonlocal %s' % name, '%s = 1' % name],
         'compnested': ['[[0 for %s in ()] for _r in ()]' % name],
         'fromalias_ml': ['from os import (path', '    as %s, sep as _s)' % name],
+        'futuremodule': ['import __future__ as %s' % name],
     }[kind]
 
 
